@@ -1,9 +1,506 @@
 package main
 
-import "math/rand/v2"
+import (
+	"fmt"
+	"math/big"
+	"math/rand/v2"
+	"sort"
+	"strconv"
+)
 
-func corpusC05() []FileDef { return nil }
-func corpusC12() []FileDef { return nil }
+// colKind describes one kind of trait column of the quantified space.
+type colKind struct {
+	id    string
+	ty    string // dynamic type id (dumplib naming: farm package types are "pkg.X")
+	bkind string
+	own   bool   // brings its own JSON/YAML/text unmarshalers
+	ref   string // how the type is written inside the package
+	pk    string // payload kind: str | int | bool
+	lo    int64  // integer range used when drawing values
+	hi    int64
+}
 
-func randomFileC05(r *rand.Rand) FileDef { return randomFile(r, "c04") }
-func randomFileC12(r *rand.Rand) FileDef { return randomFile(r, "c04") }
+var colKinds = []colKind{
+	{id: "ustr", ty: "string", bkind: "BUntypedString", pk: "str", ref: "string"},
+	{id: "tstr", ty: "string", bkind: "BString", pk: "str", ref: "string"},
+	{id: "Str", ty: "pkg.Str", bkind: "BString", pk: "str", ref: "Str"},
+	{id: "uint_", ty: "int", bkind: "BUntypedInt", pk: "int", ref: "int", lo: -50, hi: 5000},
+	{id: "tint", ty: "int", bkind: "BInt", pk: "int", ref: "int", lo: -1 << 40, hi: 1 << 40},
+	{id: "int64", ty: "int64", bkind: "BInt64", pk: "int", ref: "int64", lo: -1 << 62, hi: 1 << 62},
+	{id: "uint64", ty: "uint64", bkind: "BUint64", pk: "int", ref: "uint64", lo: 0, hi: 1 << 62},
+	{id: "uint", ty: "uint", bkind: "BUint", pk: "int", ref: "uint", lo: 0, hi: 100000},
+	{id: "Num", ty: "pkg.Num", bkind: "BInt", pk: "int", ref: "Num", lo: -100, hi: 100000},
+	{id: "dur", ty: "time.Duration", bkind: "BInt64", pk: "int", ref: "tm.Duration", lo: 0, hi: 7200},
+	{id: "int8", ty: "int8", bkind: "BInt8", pk: "int", ref: "int8", lo: -128, hi: 127},
+	{id: "uint8", ty: "uint8", bkind: "BUint8", pk: "int", ref: "uint8", lo: 0, hi: 255},
+	{id: "int32", ty: "int32", bkind: "BInt32", pk: "int", ref: "int32", lo: -1 << 31, hi: 1<<31 - 1},
+	{id: "uint16", ty: "uint16", bkind: "BUint16", pk: "int", ref: "uint16", lo: 0, hi: 65535},
+	{id: "urune", ty: "int32", bkind: "BUntypedRune", pk: "int", ref: "rune", lo: 'a', hi: 'z'},
+	{id: "trune", ty: "int32", bkind: "BInt32", pk: "int", ref: "rune", lo: 'A', hi: 'Z'},
+	{id: "ubool", ty: "bool", bkind: "BUntypedBool", pk: "bool", ref: "bool"},
+	{id: "tbool", ty: "bool", bkind: "BBool", pk: "bool", ref: "bool"},
+	{id: "AuxA", ty: "pkg.AuxA", bkind: "BInt", own: true, pk: "int", ref: "AuxA", lo: 0, hi: 47},
+	{id: "AuxB", ty: "pkg.AuxB", bkind: "BUint8", own: true, pk: "int", ref: "AuxB", lo: 0, hi: 47},
+}
+
+func kindByID(id string) colKind {
+	for _, k := range colKinds {
+		if k.id == id {
+			return k
+		}
+	}
+	panic(id)
+}
+
+// cellOf renders a cell of kind k holding the given value.
+func cellOf(k colKind, varName string, s string, i int64, b bool) Cell {
+	c := Cell{Var: varName, Ty: k.ty, Kind: k.pk}
+	switch k.pk {
+	case "str":
+		c.Str = s
+		q := strconv.Quote(s)
+		switch k.id {
+		case "ustr":
+			c.Expr = q
+		case "tstr":
+			c.Expr = "string(" + q + ")"
+		default:
+			c.Expr = "Str(" + q + ")"
+		}
+	case "bool":
+		c.Bool = b
+		c.Expr = strconv.FormatBool(b)
+		if k.id == "tbool" {
+			c.Expr = "bool(" + c.Expr + ")"
+		}
+	default:
+		c.Int = strconv.FormatInt(i, 10)
+		switch k.id {
+		case "uint_":
+			c.Expr = c.Int
+		case "urune":
+			c.Expr = "'" + string(rune(i)) + "'"
+		case "trune":
+			c.Expr = "rune('" + string(rune(i)) + "')"
+		case "dur":
+			if i%2 == 0 {
+				c.Expr = fmt.Sprintf("%d * tm.Second", i)
+				c.Int = strconv.FormatInt(i*1000000000, 10)
+			} else {
+				c.Expr = fmt.Sprintf("tm.Duration(%d)", i)
+			}
+		case "AuxA", "AuxB":
+			c.Expr = fmt.Sprintf("%s%d", k.id, i)
+		default:
+			c.Expr = fmt.Sprintf("%s(%d)", k.ref, i)
+		}
+	}
+	return c
+}
+
+func typeInfoOf(k colKind) TypeInfo {
+	return TypeInfo{Ty: k.ty, BKind: k.bkind, JSONOwn: k.own, YAMLOwn: k.own, TextOwn: k.own, Ref: k.ref}
+}
+
+var methodNames = []string{"string", "isvalid", "values", "stringvalues", "parsestring", "parsegeneric", "isenum",
+	"marshaljson", "unmarshaljson", "marshaltext", "unmarshaltext", "marshalyaml", "unmarshalyaml", "str", "num",
+	"auxa", "auxb"}
+
+func newNamer(r *rand.Rand) *namer {
+	nm := &namer{r: r, used: map[string]bool{}}
+	for _, m := range methodNames {
+		nm.used[m] = true
+	}
+	for i := 0; i < 48; i++ {
+		nm.used[fmt.Sprintf("auxa%d", i)] = true
+		nm.used[fmt.Sprintf("auxb%d", i)] = true
+	}
+	return nm
+}
+
+// traitSpec says how a trait enum is drawn.
+type traitSpec struct {
+	kinds        []string // admissible column kinds
+	maxCols      int
+	maxConsts    int
+	dupCells     int // percent chance of a duplicate line that carries trait cells
+	dupNoCells   int // percent chance of duplicate lines without cells
+	plainNoCells int // percent chance of a non-duplicate line without cells
+	namedCells   int // percent chance that a later line binds its cells to names
+}
+
+// genTraitEnum draws one enum with trait columns.  Returns the enum and, per column, whether
+// its values are pairwise distinct over the primary lines (candidates for -parsableByTraits).
+func genTraitEnum(r *rand.Rand, nm *namer, typeName string, nextBlock *int, sp traitSpec) (EnumDef, []string) {
+	u := underlyings[r.IntN(len(underlyings))]
+	e := EnumDef{Type: typeName, Under: u.name, Signed: u.signed, Bits: u.bits}
+	shape := map[string]bool{"traits": true}
+	n := 1 + r.IntN(sp.maxConsts)
+	ncols := 1 + r.IntN(sp.maxCols)
+	cols := make([]colKind, ncols)
+	colNames := make([]string, ncols)
+	colVars := make([]string, ncols)
+	kindOfTy := map[string]string{}
+	for j := range cols {
+		for {
+			cols[j] = kindByID(sp.kinds[r.IntN(len(sp.kinds))])
+			if bk, ok := kindOfTy[cols[j].ty]; !ok || bk == cols[j].bkind {
+				kindOfTy[cols[j].ty] = cols[j].bkind
+				break
+			}
+		}
+		name := nm.fresh(7)
+		colNames[j] = name
+		if r.IntN(3) > 0 {
+			colVars[j] = "_" + name
+		} else {
+			colVars[j] = name
+		}
+		shape["col_"+cols[j].id] = true
+	}
+	// distinct enum values: a run from a small start, sometimes negative / sparse
+	start := int64(0)
+	if u.signed && r.IntN(3) == 0 {
+		start = -int64(r.IntN(4))
+	}
+	step := int64(1)
+	if r.IntN(4) == 0 {
+		step = int64(2 + r.IntN(3))
+	}
+	useIota := step == 1 && start == 0 && r.IntN(2) == 0
+	// per-column value pools (pairwise distinct within a column with high probability)
+	usedStr := map[string]bool{}
+	drawStr := func() string {
+		for {
+			var s string
+			switch r.IntN(6) {
+			case 0:
+				s = strconv.Itoa(r.IntN(40)) // numeric-looking string
+			case 1:
+				s = "tv-" + randWord(r)
+			default:
+				s = "t." + randWord(r)
+			}
+			if !usedStr[s] {
+				usedStr[s] = true
+				return s
+			}
+		}
+	}
+	type colState struct {
+		ints     map[int64]bool
+		distinct bool
+		nbool    int
+	}
+	st := make([]colState, ncols)
+	for j := range st {
+		st[j] = colState{ints: map[int64]bool{}, distinct: true}
+	}
+	drawCell := func(j int, varName string, forceDup bool) Cell {
+		k := cols[j]
+		switch k.pk {
+		case "str":
+			return cellOf(k, varName, drawStr(), 0, false)
+		case "bool":
+			b := st[j].nbool%2 == 1
+			if r.IntN(4) == 0 {
+				b = !b
+			}
+			st[j].nbool++
+			bi := int64(0)
+			if b {
+				bi = 1
+			}
+			if st[j].ints[bi] {
+				st[j].distinct = false
+			}
+			st[j].ints[bi] = true
+			return cellOf(k, varName, "", 0, b)
+		}
+		for tries := 0; ; tries++ {
+			span := k.hi - k.lo + 1
+			var v int64
+			switch r.IntN(5) {
+			case 0:
+				v = int64(r.IntN(4)) // small values, 0 included (the YAML `garbage` witness needs a 0)
+			case 1:
+				v = k.lo + int64(r.Uint64()%uint64(span))
+			default:
+				v = int64(r.IntN(int(min(span, 300))))
+			}
+			if v < k.lo || v > k.hi {
+				continue
+			}
+			if st[j].ints[v] && tries < 50 && !(forceDup || r.IntN(12) == 0) {
+				continue
+			}
+			if st[j].ints[v] {
+				st[j].distinct = false
+			}
+			st[j].ints[v] = true
+			return cellOf(k, varName, "", v, false)
+		}
+	}
+	blk := *nextBlock
+	*nextBlock++
+	for i := 0; i < n; i++ {
+		v := start + int64(i)*step
+		if !inRange(u, big.NewInt(v)) {
+			break
+		}
+		c := Const{Name: nm.fresh(9), Val: strconv.FormatInt(v, 10), Block: blk, Form: "explicit", Rhs: strconv.FormatInt(v, 10)}
+		if useIota {
+			c.Form, c.Rhs = "iota", "iota"
+		}
+		if i > 0 && r.IntN(100) < sp.plainNoCells {
+			// a line without trait cells
+			shape["line_without_trait_cells"] = true
+			e.Consts = append(e.Consts, c)
+			continue
+		}
+		for j := range cols {
+			varName := "_"
+			if i == 0 {
+				varName = colVars[j]
+			} else if r.IntN(100) < sp.namedCells {
+				varName = nm.fresh(9)
+				shape["named_cells"] = true
+			}
+			c.Cells = append(c.Cells, drawCell(j, varName, false))
+		}
+		e.Consts = append(e.Consts, c)
+	}
+	// duplicates
+	if len(e.Consts) > 0 && r.IntN(100) < sp.dupNoCells {
+		k := 1 + r.IntN(2)
+		for i := 0; i < k; i++ {
+			t := e.Consts[r.IntN(len(e.Consts))]
+			c := Const{Name: nm.fresh(9), Val: t.Val, Block: blk, Form: "alias", Rhs: t.Name, Dep: r.IntN(2) == 0}
+			e.Consts = append(e.Consts, c)
+		}
+		shape["dup_without_trait_cells"] = true
+	}
+	if len(e.Consts) > 0 && r.IntN(100) < sp.dupCells {
+		t := e.Consts[r.IntN(len(e.Consts))]
+		c := Const{Name: nm.fresh(9), Val: t.Val, Block: blk, Form: "alias", Rhs: t.Name, Dep: r.IntN(3) > 0}
+		for j := range cols {
+			// a duplicate line repeats or changes the trait values
+			cl := drawCell(j, "_", false)
+			if len(t.Cells) == len(cols) && r.IntN(2) == 0 {
+				cl = t.Cells[j]
+				cl.Var = "_"
+			}
+			c.Cells = append(c.Cells, cl)
+		}
+		e.Consts = append(e.Consts, c)
+		if c.Dep {
+			shape["deprecated_duplicate_with_trait_cells"] = true
+		} else {
+			shape["live_duplicate_with_trait_cells"] = true
+		}
+	}
+	// trait type oracle
+	seenTy := map[string]bool{}
+	for _, k := range cols {
+		if !seenTy[k.ty+k.bkind] {
+			seenTy[k.ty+k.bkind] = true
+			e.Types = append(e.Types, typeInfoOf(k))
+		}
+	}
+	// one type id must map to one basic kind inside an enum (string: untyped vs typed, int32: rune):
+	// keep the first kind drawn for a type id
+	e.Types = dedupTypes(e.Types)
+	markDupShapes(&e, shape)
+	for k := range shape {
+		e.Shape = append(e.Shape, k)
+	}
+	sort.Strings(e.Shape)
+	var distinct []string
+	for j := range cols {
+		if st[j].distinct {
+			distinct = append(distinct, colNames[j])
+		}
+	}
+	return e, distinct
+}
+
+func dedupTypes(ts []TypeInfo) []TypeInfo {
+	seen := map[string]bool{}
+	var out []TypeInfo
+	for _, t := range ts {
+		if !seen[t.Ty] {
+			seen[t.Ty] = true
+			out = append(out, t)
+		}
+	}
+	return out
+}
+
+var kindsC05 = []string{"ustr", "tstr", "Str", "uint_", "tint", "int64", "uint64", "uint", "Num", "dur", "AuxA"}
+var kindsC12 = []string{"ustr", "tstr", "Str", "uint_", "tint", "int64", "uint64", "uint", "Num", "dur", "int8", "uint8",
+	"int32", "uint16", "urune", "trune", "ubool", "tbool", "AuxA", "AuxB"}
+
+// pickParsable draws a subset of the value-distinct columns; columns whose type id is shared
+// with another parsable column are left out when their values could collide.
+func pickParsable(r *rand.Rand, distinct []string) []string {
+	var out []string
+	for _, c := range distinct {
+		if r.IntN(3) > 0 {
+			out = append(out, c)
+		}
+	}
+	return out
+}
+
+func randomCodecOpts(r *rand.Rand) Opts {
+	o := Opts{JSON: r.IntN(4) > 0, YAML: r.IntN(4) > 0, Text: r.IntN(4) > 0, CI: r.IntN(2) == 0}
+	if !o.JSON && !o.YAML && !o.Text {
+		switch r.IntN(3) {
+		case 0:
+			o.JSON = true
+		case 1:
+			o.YAML = true
+		default:
+			o.Text = true
+		}
+	}
+	return o
+}
+
+func randomFileC05(r *rand.Rand) FileDef {
+	fd := FileDef{Kind: "random", Opts: randomCodecOpts(r), Traits: true}
+	nm := newNamer(r)
+	blk := 0
+	nt := 1 + r.IntN(2)
+	var parsable []string
+	for i := 0; i < nt; i++ {
+		if r.IntN(3) == 0 {
+			// an enum without traits (C04 shape, fewer constants)
+			e := genEnum(r, nm, fmt.Sprintf("E%d", i), &blk)
+			fd.Enums = append(fd.Enums, e)
+			continue
+		}
+		e, distinct := genTraitEnum(r, nm, fmt.Sprintf("E%d", i), &blk,
+			traitSpec{kinds: kindsC05, maxCols: 3, maxConsts: 8})
+		fd.Enums = append(fd.Enums, e)
+		parsable = append(parsable, pickParsable(r, distinct)...)
+	}
+	fd.Opts.Parsable = parsable
+	return fd
+}
+
+func randomFileC12(r *rand.Rand) FileDef {
+	fd := FileDef{Kind: "random", Opts: randomCodecOpts(r), Traits: true}
+	if r.IntN(3) > 0 {
+		fd.Opts.JSON, fd.Opts.YAML, fd.Opts.Text = true, true, true
+	}
+	nm := newNamer(r)
+	blk := 0
+	nt := 1 + r.IntN(2)
+	var parsable []string
+	for i := 0; i < nt; i++ {
+		e, distinct := genTraitEnum(r, nm, fmt.Sprintf("E%d", i), &blk,
+			traitSpec{kinds: kindsC12, maxCols: 5, maxConsts: 10, dupCells: 12, dupNoCells: 15, plainNoCells: 4, namedCells: 8})
+		fd.Enums = append(fd.Enums, e)
+		if r.IntN(5) > 0 {
+			parsable = append(parsable, pickParsable(r, distinct)...)
+		}
+	}
+	fd.Opts.Parsable = parsable
+	return fd
+}
+
+// ---------------------------------------------------------------- corpus
+
+func traitEnum(typ string, u under, blk int, types []TypeInfo, consts ...Const) EnumDef {
+	e := explicitEnum(typ, u, blk, consts...)
+	e.Types = types
+	shape := map[string]bool{"traits": true}
+	for _, s := range e.Shape {
+		shape[s] = true
+	}
+	markDupShapes(&e, shape)
+	e.Shape = nil
+	for k := range shape {
+		e.Shape = append(e.Shape, k)
+	}
+	sort.Strings(e.Shape)
+	return e
+}
+
+func corpusC05() []FileDef {
+	ki := kindByID("uint_")
+	ks := kindByID("ustr")
+	// DESIGN §5: YAML `garbage` decodes to the value whose parsable numeric trait is 0; YAML `7` fails
+	o := defaultOpts()
+	o.Parsable = []string{"Code"}
+	f1 := FileDef{Kind: "corpus", Opts: o, Traits: true, Enums: []EnumDef{
+		traitEnum("E0", uByName("int"), 0, []TypeInfo{typeInfoOf(ki), typeInfoOf(ks)},
+			Const{Name: "P0", Val: "0", Cells: []Cell{cellOf(ki, "_Code", "", 0, false), cellOf(ks, "_Label", "t.zero", 0, false)}},
+			Const{Name: "P1", Val: "1", Cells: []Cell{cellOf(ki, "_", "", 7, false), cellOf(ks, "_", "t.seven", 0, false)}},
+			Const{Name: "P2", Val: "2", Cells: []Cell{cellOf(ki, "_", "", 9, false), cellOf(ks, "_", "t.nine", 0, false)}}),
+	}}
+	// no traits at all, text only / json only
+	o2 := Opts{JSON: true, Text: false, YAML: true, CI: true}
+	f2 := FileDef{Kind: "corpus", Opts: o2, Enums: []EnumDef{
+		explicitEnum("E0", uByName("uint8"), 0, Const{Name: "Red", Val: "1"}, Const{Name: "Green", Val: "2"},
+			Const{Name: "Blue", Val: "255"}, Const{Name: "Rouge", Val: "1", Dep: true}),
+	}}
+	return []FileDef{f1, f2}
+}
+
+func corpusC12() []FileDef {
+	ki := kindByID("uint_")
+	ks := kindByID("ustr")
+	kb := kindByID("ubool")
+	kr := kindByID("urune")
+	ka := kindByID("AuxA")
+	kb2 := kindByID("AuxB")
+	var out []FileDef
+	// 1. YAML numeric trait values do not decode on the pinned code (inverted guard)
+	o := defaultOpts()
+	o.Parsable = []string{"Code"}
+	out = append(out, FileDef{Kind: "corpus", Opts: o, Traits: true, Enums: []EnumDef{
+		traitEnum("E0", uByName("int"), 0, []TypeInfo{typeInfoOf(ki)},
+			Const{Name: "Q0", Val: "0", Cells: []Cell{cellOf(ki, "_Code", "", 3, false)}},
+			Const{Name: "Q1", Val: "1", Cells: []Cell{cellOf(ki, "_", "", 2, false)}}),
+	}})
+	// 2. deprecated duplicate carrying trait cells: duplicate `case` on the pinned code
+	out = append(out, FileDef{Kind: "corpus", Opts: defaultOpts(), Traits: true, Enums: []EnumDef{
+		traitEnum("E0", uByName("int"), 0, []TypeInfo{typeInfoOf(ki)},
+			Const{Name: "Cat", Val: "1", Cells: []Cell{cellOf(ki, "_Legs", "", 4, false)}},
+			Const{Name: "Feline", Val: "1", Dep: true, Form: "alias", Rhs: "Cat", Cells: []Cell{cellOf(ki, "_", "", 5, false)}},
+			Const{Name: "Ant", Val: "2", Cells: []Cell{cellOf(ki, "_", "", 6, false)}}),
+	}})
+	// 3. parsable trait + duplicated value without cells / line lacking cells: index out of range
+	o3 := defaultOpts()
+	o3.Parsable = []string{"Legs"}
+	out = append(out, FileDef{Kind: "corpus", Opts: o3, Traits: true, Enums: []EnumDef{
+		traitEnum("E0", uByName("int"), 0, []TypeInfo{typeInfoOf(ki)},
+			Const{Name: "Cat", Val: "1", Cells: []Cell{cellOf(ki, "_Legs", "", 4, false)}},
+			Const{Name: "Ant", Val: "2", Cells: []Cell{cellOf(ki, "_", "", 6, false)}},
+			Const{Name: "Feline", Val: "1", Dep: true, Form: "alias", Rhs: "Cat"}),
+		traitEnum("E1", uByName("uint8"), 1, []TypeInfo{typeInfoOf(ks)},
+			Const{Name: "Aa", Val: "0", Cells: []Cell{cellOf(ks, "_Tag", "t.a", 0, false)}},
+			Const{Name: "Bb", Val: "3"}),
+	}})
+	o3.Parsable = []string{"Legs", "Tag"}
+	out[len(out)-1].Opts = o3
+	// 4. two parsable traits whose types bring their own unmarshalers: v0 declared twice
+	o4 := defaultOpts()
+	o4.Parsable = []string{"First", "Second"}
+	out = append(out, FileDef{Kind: "corpus", Opts: o4, Traits: true, Enums: []EnumDef{
+		traitEnum("E0", uByName("int"), 0, []TypeInfo{typeInfoOf(ka), typeInfoOf(kb2)},
+			Const{Name: "Xa", Val: "0", Cells: []Cell{cellOf(ka, "_First", "", 1, false), cellOf(kb2, "_Second", "", 2, false)}},
+			Const{Name: "Xb", Val: "1", Cells: []Cell{cellOf(ka, "_", "", 3, false), cellOf(kb2, "_", "", 4, false)}}),
+	}})
+	// 5. parsable bool and rune traits
+	o5 := defaultOpts()
+	o5.Parsable = []string{"Flag", "Letter"}
+	out = append(out, FileDef{Kind: "corpus", Opts: o5, Traits: true, Enums: []EnumDef{
+		traitEnum("E0", uByName("int"), 0, []TypeInfo{typeInfoOf(kb), typeInfoOf(kr)},
+			Const{Name: "No", Val: "0", Cells: []Cell{cellOf(kb, "_Flag", "", 0, false), cellOf(kr, "_Letter", "", 'n', false)}},
+			Const{Name: "Yes", Val: "1", Cells: []Cell{cellOf(kb, "_", "", 0, true), cellOf(kr, "_", "", 'y', false)}}),
+	}})
+	return out
+}
